@@ -61,7 +61,7 @@ CHECKS = {
 NOT_YET = "check not built yet in this revision of /verif (planned in DESIGN.md section 3)"
 m = {
  "version": 1,
- "setup_cmd": "cd /verif/harness && CARGO_NET_OFFLINE=true cargo build --release --offline",
+ "setup_cmd": "cd /verif/harness && CARGO_NET_OFFLINE=true cargo build --release --offline && CARGO_NET_OFFLINE=true cargo build --profile scan --offline",
  "hooks": {
    "guard": "tari_bulletproofs_plus_verif",
    "enable": "no source hooks are needed: every observation point is reached from outside the crate (harness-owned point type, patched merlin dependency, harness global allocator); the guard name is reserved and unused",
